@@ -63,6 +63,34 @@ theorem ancestor_set_cost_le (es : List Edge) (v : Nat) :
   have h2 := length_preds_le es v
   omega
 
+/-- … and a selection that stops with a platform error has spent at most `|V| + |E|` steps as well. -/
+theorem select_cost_le_error (g : BuildGraph) (s : Selector) (h : Host) (order : List Nat) (x c : Nat)
+    (hord : order.Nodup) (hsub : ∀ i ∈ order, i < g.nodes.length)
+    (herr : selectForBuild g s h order = .platformError x c) :
+    c ≤ g.nodes.length + g.edges.length := by
+  have h1 := (selectLoop_err_inv _ _ _ _ _ _ _ herr).2.2
+  rw [rem_nil, length_flipEdges] at h1
+  have h2 : (g.roots s h order).length ≤ order.length := List.length_filter_le _ _
+  have h3 : order.length ≤ g.nodes.length := by
+    have := List.Nodup.length_le_of_subset hord (fun x hx => List.mem_range.mpr (hsub x hx))
+    simpa using this
+  omega
+
+/-- **The step of the selection is not O(1).** Every counted step of `selectAllAncestorsForBuild` that discovers an
+    ancestor also copies the dependency chain of the current recursion (`nextChain := append(append([]string{}, depChain...), …)`,
+    build_selection.go) — the labels on the recursion stack, at most one per node because visited nodes are not re-entered. In
+    elementary operations (one per copied label) a selection therefore costs at most `cost · (1 + |V|)`, i.e.
+    `(|V| + |E|) · (1 + |V|)`: quadratic on a chain (measured by the reviewer: 4000/8000/16000-chain ⇒ 0.14/0.36/1.76 s), still
+    independent of the number of paths. `GetDescendants` / `GetAncestors` have no such copy: their steps are O(1) map operations. -/
+theorem select_ops_le (g : BuildGraph) (s : Selector) (h : Host) (order : List Nat)
+    (hord : order.Nodup) (hsub : ∀ i ∈ order, i < g.nodes.length) (c : Nat)
+    (hres : (∃ sel, selectForBuild g s h order = .ok sel c) ∨ (∃ x, selectForBuild g s h order = .platformError x c)) :
+    c * (1 + g.nodes.length) ≤ (g.nodes.length + g.edges.length) * (1 + g.nodes.length) := by
+  apply Nat.mul_le_mul_right
+  rcases hres with ⟨sel, hok⟩ | ⟨x, herr⟩
+  · exact select_cost_le g s h order sel c hord hsub hok
+  · exact select_cost_le_error g s h order x c hord hsub herr
+
 /-- the hypotheses of `select_cost_le` are satisfiable (x ← alias ← t, pattern `//:t`): cost 3 ≤ 3 + 2 -/
 example :
     let g : BuildGraph := ⟨[⟨⟨[], [120]⟩, true, [], [], false⟩, ⟨⟨[], [97, 120]⟩, false, [], [], false⟩,
@@ -82,6 +110,13 @@ theorem changes_cost_le (n : Nat) (es : List Edge) (hwf : WF n es) :
     have h2 := changes_cost_le n es hwf rest (fun x hx => h x (List.mem_cons_of_mem _ hx))
     simp only [List.map_cons, List.sum_cons, List.length_cons]
     rw [Nat.succ_mul]; omega
+
+/-- Failure propagation over a whole walk (keep-going): `onComplete` of every failed node calls `GetDescendants` once
+    (under `doneMutex`), so `k` failures cost at most `k · (|V| + |E|)` steps, `|V| · (|V| + |E|)` at worst. (The
+    `depsDone` scan of `onComplete` for successful nodes is `Σ_v Σ_{m ∈ out(v)} indeg(m) ≤ |E|·maxindeg`; not modelled here.) -/
+theorem failure_propagation_total_le (n : Nat) (es : List Edge) (hwf : WF n es) (failed : List Nat) (hf : ∀ v ∈ failed, v < n) :
+    (failed.map (fun v => (descendantsV es v).cost)).sum ≤ failed.length * (n + es.length) :=
+  changes_cost_le n es hwf failed hf
 
 /-- `grog changes` with a filter: the nodes are collected by traversals that never look at the filter (the
     `--target-type` / `--tag` / `--exclude-tag` selector is applied to the collected list afterwards), so the cost
